@@ -24,6 +24,7 @@ type Case struct {
 	Prog  []Stmt `json:"prog"`
 	Pen   int    `json:"pen,omitempty"`   // coalescing penalty of the vector memory unit (0 = R9 Nano, 3 = MI300A)
 	GPU   string `json:"gpu,omitempty"`   // "" = R9 Nano / GCN3, "mi300a" = MI300A compute unit / CDNA3 ALU and emulator
+	Flush []int  `json:"flush,omitempty"` // CU cycles (after the first work-group arrived) at which the harness, playing the command processor, sends CUPipelineFlushReq, then CUPipelineRestartReq
 	Refuse int   `json:"refuse,omitempty"` // the dispatch port refuses the first Refuse Send attempts of every WGCompletionMsg
 	Known bool   `json:"known,omitempty"` // member of the documented early-exit class (witness only)
 
@@ -35,7 +36,7 @@ type Case struct {
 }
 
 func strip(c Case) Case {
-	return Case{Name: c.Name, NWf: c.NWf, NWg: c.NWg, Prog: c.Prog, Pen: c.Pen, GPU: c.GPU, Refuse: c.Refuse, Known: c.Known}
+	return Case{Name: c.Name, NWf: c.NWf, NWg: c.NWg, Prog: c.Prog, Pen: c.Pen, GPU: c.GPU, Flush: c.Flush, Refuse: c.Refuse, Known: c.Known}
 }
 
 func runCase(c Case, timeoutMs int) Case {
